@@ -28,6 +28,7 @@ def run(ctx):
                 "HTTPProxy.Run is cancelled before / after the listener's own limits fired: Run returns, the in-flight exchange is "
                 "answered, every connection is closed, a late client is not served, listener / dialer / in-flight gauges are 0. Non-trivial = schedule with a forwarded request and a shutdown.")
     ctx.mc("Lifecycle.tla", "MC_Lifecycle_Q.cfg" if q else "MC_Lifecycle.cfg", timeout=3000)
+    ctx.mc("Lifecycle.tla", "MC_Lifecycle_NoChk3.cfg", expect_ok=False, timeout=1500)
     binp = ctx.build()
     n = 150 if q else 3000
     recs, g, d, _ = ctx.gen("LifecycleGen.tla", "GEN_Lifecycle.cfg", simulate="num=%d" % n, workers=1, timeout=1500)
@@ -64,6 +65,7 @@ def run(ctx):
 def run_level(ctx, binp, q):
     """whole-HTTPProxy shutdown with clients in the phases of the real listener stack (LifecycleRun.tla)"""
     ctx.mc("LifecycleRun.tla", "MC_LifecycleRun.cfg")
+    ctx.mc("LifecycleRun.tla", "MC_LifecycleRun_LateReg.cfg", expect_ok=False)
     recs, _, _, _ = ctx.gen("LifecycleRun.tla", "GEN_LifecycleRun.cfg")
     recs = [r for r in recs if "stacking" in r]
     seen, cases = set(), []
